@@ -109,7 +109,12 @@ e1prop("C02", "Scalars are Z_q", "C02.json",
 e1prop("C01", "Group laws (by decomposition: kernels, formulas, algorithms)", "C01.json",
        "kernel layer: every Ed25519 field kernel of fe.go (feMul, feSquare, feSquare2, feAdd, feSub, feNeg, feCopy, feZero, feOne, feCMove, feToBytes, feFromBytes) is a ring operation on the represented value mod 2^255-19 for ALL limb vectors within the input bounds documented in the source, with every int32/int64 operation free of overflow and the documented output limb bounds (503 overflow obligations for feMul alone).",
        ["kernel layer: all inputs within the documented limb bounds; no loops", "formula and algorithm layers: see the per-harness bounds in the evidence"],
-       ["P-256 (Go's nistec), BLS12-381 back-ends (kilic, circl, gnark), the residue group's modexp, bn gfp assembly, GT/gfp12 towers: external code or assembly, not encodable; only their Go adapter glue is examined (C05)", "the textbook theorem that the affine (twisted-)Edwards / Weierstrass addition laws form an abelian group (trusted, DESIGN.md 6/C01)"])
+       ["P-256 (Go's nistec), BLS12-381 back-ends (kilic, circl, gnark), the residue group's modexp, bn gfp assembly, GT/gfp12 towers: external code or assembly, not encodable; only their Go adapter glue is examined (C05)", "the textbook theorem that the affine (twisted-)Edwards / Weierstrass addition laws form an abelian group (trusted, DESIGN.md 6/C01)",
+        "the precomputed base-point table's contents (assumed to hold (i+1)*256^pos*B; exercised natively by the replay entry)"],
+       extra_parts=[dict(engine="e1", name="c01-alg", spec="C01alg.json", timeout={"quick": 2400, "thorough": 6 * 3600})])
+PROPS["C01"]["level_text"] += " Algorithm layer: geScalarMult, geScalarMultBase (all scalars with a[31] <= 127) and geScalarMultVartime (byte windows) compute s*A, with the group operations replaced by their action on the integer multiple of A (free-group abstraction) so that what is verified is the scalar recoding, the table construction, the table lookups and the double-and-add schedule; the constant-time lookups selectCached / selectPreComputed are verified on their real bodies for all table contents and digits (bit-vectors)."
+PROPS["C01"]["bounds"] += ["algorithm layer: all 2^255 scalars for the two constant-time algorithms; variable-time: zero scalar and one-byte window at offset 31 (quick), further windows (thorough); selectCached/selectPreComputed: all 8x40 (8x30) limb values, digits -8..8"]
+
 
 
 def add_e1_part(pid, spec, extra_text, extra_bounds=None, extra_outside=None):
@@ -164,4 +169,9 @@ e1prop("C17", "Pick / Embed / hash-to-group (byte logic)", "C17.json",
 e1prop("C18", "Implementations and build variants agree (through a common reference model)", "C18.json",
        "the pure-Go field arithmetic selected by the build tag `generic` (bn256 and bn254 gfpAdd, gfpSub, gfpNeg, gfpCarry; the package is loaded with -tags generic) computes exactly (a+b) mod p, (a-b) mod p, (-a) mod p with results < p for ALL 256-bit a, b < p - the reference model that the assembly of the default build is trusted to implement; the Ed25519 kernels of C01/C02 are build-variant independent Go code verified against the same integer model.",
        ["all 2^256-bit operands below p (bit-vector queries, 4 x uint64 limbs, loops of 4 iterations fully unrolled)"],
-       ["amd64/arm64 assembly (not encodable: only the Go side is)", "gfpMul (Montgomery, 16x32-bit partial products) not encoded yet", "kilic vs circl vs gnark (external), P-256 vs reference, constantTime build (bigmod.Nat model not built), whole-program transcripts"])
+       ["amd64/arm64 assembly (not encodable: only the Go side is)", "gfpMul (Montgomery, 16x32-bit partial products) not encoded yet", "kilic vs circl vs gnark (external), P-256 vs reference, constantTime build (bigmod.Nat model not built), whole-program transcripts",
+        "variable-time Ed25519 multiplication for scalars with non-zero bytes spread over more than the stated window"],
+       extra_parts=[dict(engine="e1", name="c18-alg", spec="C01alg.json", only="^alg\\.", timeout={"quick": 2400, "thorough": 6 * 3600})])
+PROPS["C18"]["level_text"] += " Constant-time, base-table and variable-time (AllowVarTime) Ed25519 scalar multiplication all compute s*A: geScalarMult and geScalarMultBase for ALL scalars with a[31] <= 127, geScalarMultVartime for all scalars inside the stated byte windows (group operations abstracted to their action on the multiple k of A; table lookups verified on their real bodies); hence the three paths agree on those scalars."
+PROPS["C18"]["bounds"] += ["geScalarMult / geScalarMultBase: all 2^255 scalars; geScalarMultVartime: zero scalar and all scalars within one byte at offset 31 (quick), offsets 0, 1, 15, 30 and two-byte windows (thorough)"]
+
